@@ -510,3 +510,156 @@ func TestC17MonitorWindow(t *testing.T) {
 		}
 	}
 }
+
+type c17TokenCase struct {
+	Tokens   int      `json:"tokens"`
+	Clients  int      `json:"clients"`
+	Monitors []string `json:"monitors"`
+	Shape    string   `json:"transactionShape"`
+	Takers   []string `json:"takers,omitempty"`
+}
+
+// TestC17Tokens (built with -race): transactions that only delete (optionally after a
+// select or a wait) are transactions like any other. Clients race to take tokens by
+// deleting them while monitoring peers acknowledge slowly: each token is taken by exactly
+// one transaction, nobody gets an RPC error, every monitor is told of each deletion once.
+func TestC17Tokens(t *testing.T) {
+	w := c17World(t)
+	rapid.Check(t, func(t *rapid.T) {
+		srv, err := kit.StartServer(w)
+		if err != nil {
+			t.Fatalf("server: %v", err)
+		}
+		defer srv.Close()
+		ntok := rapid.IntRange(1, 4).Draw(t, "ntokens")
+		ncl := rapid.IntRange(2, 5).Draw(t, "nclients")
+		shape := rapid.SampledFrom([]string{"delete", "select+delete", "wait+delete"}).Draw(t, "shape")
+		kase := c17TokenCase{Tokens: ntok, Clients: ncl, Shape: shape}
+		fail := func(class, format string, args ...interface{}) {
+			kit.Fail(t, "C17", class, kase, format, args...)
+		}
+		setup, err := kit.DialRaw(srv.Sock)
+		if err != nil {
+			t.Fatalf("dial: %v", err)
+		}
+		defer setup.Close()
+		var ins []json.RawMessage
+		for i := 0; i < ntok; i++ {
+			ins = append(ins, json.RawMessage(fmt.Sprintf(`{"op":"insert","table":"Item","row":{"key":"tok%d","owner":0}}`, i)))
+		}
+		if _, err := setup.Transact("DB", ins); err != nil {
+			t.Fatalf("harness: %v", err)
+		}
+		var mons []*kit.RawPeer
+		for i, nm := 0, rapid.IntRange(1, 2).Draw(t, "nmonitors"); i < nm; i++ {
+			method := rapid.SampledFrom([]string{"monitor", "monitor_cond"}).Draw(t, "method")
+			delay := time.Duration(rapid.SampledFrom([]int{0, 2, 5, 10}).Draw(t, "ackdelayms")) * time.Millisecond
+			kase.Monitors = append(kase.Monitors, fmt.Sprintf("%s ack-delay=%v", method, delay))
+			p, err := kit.DialRaw(srv.Sock)
+			if err != nil {
+				t.Fatalf("dial: %v", err)
+			}
+			defer p.Close()
+			if delay > 0 {
+				p.Hold = func(kit.Notification) { time.Sleep(delay) }
+			}
+			var reply json.RawMessage
+			if err := p.Call(method, []interface{}{"DB", fmt.Sprintf("m%d", i), map[string]interface{}{"Item": map[string]interface{}{}}}, &reply); err != nil {
+				fail("monitor.error", "%s: %v", method, err)
+			}
+			mons = append(mons, p)
+		}
+		type take struct {
+			client, token int
+			count         int
+			err           error
+			reply         string
+		}
+		results := make(chan take, ncl*ntok)
+		start := make(chan struct{})
+		var wg sync.WaitGroup
+		for c := 0; c < ncl; c++ {
+			p, err := kit.DialRaw(srv.Sock)
+			if err != nil {
+				t.Fatalf("dial: %v", err)
+			}
+			defer p.Close()
+			order := rapid.Permutation(seqInts(ntok)).Draw(t, "tokenorder")
+			wg.Add(1)
+			go func(c int, p *kit.RawPeer, order []int) {
+				defer wg.Done()
+				<-start
+				for _, k := range order {
+					where := fmt.Sprintf(`[["key","==","tok%d"]]`, k)
+					var ops []json.RawMessage
+					switch shape {
+					case "select+delete":
+						ops = append(ops, json.RawMessage(`{"op":"select","table":"Item","where":`+where+`}`))
+					case "wait+delete":
+						ops = append(ops, json.RawMessage(`{"op":"wait","table":"Counter","timeout":0,"until":"==","columns":["name"],"rows":[],"where":[]}`))
+					}
+					ops = append(ops, json.RawMessage(`{"op":"delete","table":"Item","where":`+where+`}`))
+					reply, err := p.Transact("DB", ops)
+					tk := take{client: c, token: k, err: err, reply: string(reply)}
+					if err == nil {
+						var rs []ovsdb.OperationResult
+						if json.Unmarshal(reply, &rs) == nil && len(rs) == len(ops) && rs[len(rs)-1].Error == "" {
+							tk.count = rs[len(rs)-1].Count
+						} else {
+							tk.err = fmt.Errorf("reply %s", reply)
+						}
+					}
+					results <- tk
+				}
+			}(c, p, order)
+		}
+		close(start)
+		wg.Wait()
+		close(results)
+		taken := map[int]int{}
+		for tk := range results {
+			if tk.err != nil {
+				fail("transact.rpc-error", "client %d taking token %d: %v", tk.client, tk.token, tk.err)
+			}
+			if tk.count > 1 {
+				fail("result.count", "client %d deleted token %d %d times: %s", tk.client, tk.token, tk.count, tk.reply)
+			}
+			if tk.count == 1 {
+				taken[tk.token]++
+				kase.Takers = append(kase.Takers, fmt.Sprintf("token %d: client %d", tk.token, tk.client))
+			}
+		}
+		sort.Strings(kase.Takers)
+		for k := 0; k < ntok; k++ {
+			if taken[k] != 1 {
+				fail("serial.token-taken-not-once", "token %d was taken by %d transactions (every client tried): %v", k, taken[k], kase.Takers)
+			}
+		}
+		for i, p := range mons {
+			deletes := 0
+			for _, n := range p.Take() {
+				notes, err := decodeNotification(w, n)
+				if err != nil {
+					fail("notification.malformed", "monitor %d: %v", i, err)
+				}
+				for _, rn := range notes["Item"] {
+					if rn.kind == "delete" {
+						deletes++
+					}
+				}
+			}
+			if deletes != ntok {
+				fail("notification.count", "monitor %d (%s) was told of %d deletions, %d tokens were deleted once each", i, kase.Monitors[i], deletes, ntok)
+			}
+		}
+		kit.Record("C17", fmt.Sprintf("tokens|%d|%d|%s|%v", ntok, ncl, shape, kase.Monitors), ncl >= 3, func() interface{} { return kase }, "tokens:"+shape)
+	})
+}
+
+func seqInts(n int) []int {
+	out := make([]int, n)
+	for i := range out {
+		out[i] = i
+	}
+	return out
+}
